@@ -1,5 +1,17 @@
 #!/bin/sh
-# tools/matrix.sh [ids...]  - run every quick check against every kept seeded change (3 at a time), results in seeded/<id>/matrix.txt
+# tools/matrix.sh [ids...]  - run the quick checks against every kept seeded change (3 at a time); results in
+# seeded/<id>/matrix.txt. All cheap checks are always run; the four expensive ones (C06 C07 C15 C19) are run when the
+# change targets one of them (or C20) or touches cmd/.
 cd /verif
 ids=${*:-$(ls seeded)}
-echo $ids | tr ' ' '\n' | xargs -P 3 -I{} sh -c 'VERIF_JOBS=5 /verif/tools/evalmut.sh {} /verif/seeded/{}/patch.diff > /verif/seeded/{}/matrix.txt 2>&1; echo done {}'
+for id in $ids; do
+  [ -s seeded/$id/matrix.txt ] && grep -q "^C20 rc=" seeded/$id/matrix.txt && continue
+  echo $id
+done | xargs -P 3 -I{} sh -c '
+  id={}; t=$(echo $id | cut -c1-3)
+  props="C01 C02 C03 C04 C05 C08 C09 C10 C11 C12 C13 C14 C16 C17 C18 C20"
+  case $t in C06|C07|C15|C19|C20) props="$props C06 C07 C15 C19";; esac
+  if grep -q "^diff --git a/cmd/" /verif/seeded/$id/patch.diff; then props="$props C06 C07 C15"; fi
+  props="$props $t"
+  props=$(echo $props | tr " " "\n" | sort -u | tr "\n" " ")
+  VERIF_JOBS=5 /verif/tools/evalmut.sh $id /verif/seeded/$id/patch.diff $props > /verif/seeded/$id/matrix.txt 2>&1; echo done $id'
